@@ -1,18 +1,22 @@
 """C02: Unsolvable iff no solution exists."""
 import vlib
-from props import solverstream as ss
+from props import solverstream as ss, tracecheck as tc
 
-THEOREMS = ["C02_reference_correct"]
-CHECKER = ("coqc Props/C02.v + Print Assumptions; harness solve_cases (debug+release, sync+yield, several "
-           "activity parameters) -> verdict compared with extracted u_solvableb")
+THEOREMS = ["C02_reference_correct", "C02_facts_hold", "C02_rup_sound", "C02_refutation_sound",
+            "C02_trace_no_false_unsat", "C02_solvable_not_refuted"]
+CHECKER = ("coqc Props/C02.v + Print Assumptions; harness solve_cases (debug+release, sync+yield, several activity "
+           "parameters): (a) hook logs of every Unsolvable -> extracted check_unsat_log (facts, RUP of every learnt clause "
+           "from its recorded antecedents, root-level conflict), (b) verdict compared with extracted u_solvableb")
 
 
 def run(res, tier, seed, replay):
     vlib.proof_gate(res, "C02", THEOREMS)
     if replay:
-        recs, hangs = ss.run_replay(replay), []
+        recs, hangs = ss.run_replay(replay, dump=True), []
     else:
-        recs = ss.corpus_recs("C02")
+        recs = ss.corpus_recs("C02", dump=True)
+        r4, h4 = ss.run_streams(tc.trace_streams(tier, soft=False, classes=("conflict", "dense")), seed + 3, dump=True)
+        recs += r4
         streams = ss.streams_for(tier, soft=False)
         n = 300 if tier == "quick" else 10000
         r2, hangs = ss.run_streams(streams, seed)
@@ -24,6 +28,7 @@ def run(res, tier, seed, replay):
             recs += r3
             hangs += h3
     ref = ss.oracle_ref(recs)
+    tc.annotate(recs)
     hist = {}
     for r in recs:
         k = ss.outcome_kind(r["obs"]["outcome"])
@@ -35,6 +40,10 @@ def run(res, tier, seed, replay):
         if k == "unsat" and want:
             res.violation(key, f"solver says Unsolvable but a valid selection exists (reference procedure) in {r['stream']}",
                           ss.replay_obj(r))
+        if k == "unsat" and not want and "trace" in r and not (r["trace"].get("db") and r["trace"].get("unsat")):
+            res.tie_break(f"refutation certificate (C02_trace_no_false_unsat) no longer checks for an Unsolvable run in "
+                          f"{r['stream']}: checker verdict {r['trace']}; the verdict itself agrees with the reference",
+                          tc.trace_replay(r))
         if k == "sat" and not want:
             res.violation(key, f"solver returned {r['obs']['outcome']['sat']} but no valid selection exists in {r['stream']}",
                           ss.replay_obj(r))
@@ -42,7 +51,7 @@ def run(res, tier, seed, replay):
                 "debug+release, sync+yield, activity parameters {default,(0,.95),(5,.5),(1,1)}; verdict compared with the "
                 "Coq-verified exhaustive reference; non-trivial = Ok/Unsolvable outcome on a universe with >= 4 solvables")
     res.extra.update({"verdict_vs_reference": {f"{a}/ref_solvable={b}": c for (a, b), c in sorted(hist.items())},
-                      "hangs": len(hangs)})
+                      "hangs": len(hangs)}, **tc.stats(recs))
     return res.finish(CHECKER, vlib.TRUSTED_BASE,
                       ["termination of the CDCL loop is observed (poll watchdog), not proved",
                        "panics are reported by C04"])
